@@ -1,6 +1,7 @@
 package main
 
 import (
+	"encoding/json"
 	"flag"
 	"fmt"
 	"os"
@@ -21,6 +22,8 @@ func main() {
 		runCmd(os.Args[2:])
 	case "diff":
 		diffCmd(os.Args[2:])
+	case "replay":
+		os.Exit(replayCmd(os.Args[2:]))
 	case "check":
 		os.Exit(checkCmd(os.Args[2:]))
 	default:
@@ -161,4 +164,52 @@ func diffCmd(args []string) {
 		}
 	}
 	fmt.Println("compared", len(xs.TraceOrder), "registers;", n, "divergences shown")
+}
+
+
+// replayCmd re-runs a stored counterexample against /repo's current tree.
+func replayCmd(args []string) int {
+	if len(args) < 1 {
+		fmt.Println("usage: gsx replay <replay.json>")
+		return 2
+	}
+	b, err := os.ReadFile(args[0])
+	if err != nil {
+		fmt.Println(err)
+		return 2
+	}
+	var job eng.ReplayJob
+	if err := json.Unmarshal(b, &job); err != nil {
+		fmt.Println(err)
+		return 2
+	}
+	ov, _, err := eng.HarnessOverlay("/verif/harness")
+	if err != nil {
+		fmt.Println(err)
+		return 2
+	}
+	L, err := eng.Load(ov)
+	if err != nil {
+		fmt.Println("load error:", err)
+		return 2
+	}
+	outs, log, err := eng.RunNative(L, "/verif/harness", []*eng.ReplayJob{&job}, false)
+	if err != nil {
+		fmt.Println("native replay failed:", err)
+		fmt.Println(log)
+		return 2
+	}
+	no := outs[job.ID]
+	if no == nil {
+		fmt.Println("no output")
+		return 2
+	}
+	ok, why := confirms(&job, no)
+	fmt.Printf("harness %s%v expecting %q\n  native: failures=%v panic=%q deadlock=%v\n", job.Harness, job.Args, job.Expect, no.Failures, no.Panic, no.Deadlock)
+	if ok {
+		fmt.Println("REPRODUCED:", why)
+		return 1
+	}
+	fmt.Println("not reproduced:", why)
+	return 0
 }
